@@ -500,22 +500,26 @@ def run(ctx):
     for module, letter, spec in schemaio.record_specs():
         cls = schemaio.real_class(module, letter)
         n = len(spec["fields"])
-        raw = (spec["letter"] + "|" * n + "extra").encode()
-        ok, d, rec = schemaio.wrap_impl(cls, raw)
-        tm.case({"module": module, "letter": letter, "fields": n + 1})
-        if ok:
-            tm.fail({"module": module, "letter": letter, "record": hexb(raw)},
-                    "a record with more fields than declared is accepted (the surplus is dropped)", "too-many/fields")
+        for surplus in ("extra", "X|", "X||", "a|b|", "X|Y"):
+            raw = (spec["letter"] + "|" * n + surplus).encode()
+            ok, d, rec = schemaio.wrap_impl(cls, raw)
+            tm.case({"module": module, "letter": letter, "fields": n + 1, "surplus": surplus})
+            if ok:
+                tm.fail({"module": module, "letter": letter, "record": hexb(raw)},
+                        "a record with more fields than declared is accepted (the surplus is dropped)", "too-many/fields")
+                break
         for idx, f in enumerate(spec["fields"]):
             if f["shape"] == "scalar":
                 continue
             k = len(f["sub"])
-            raw = (spec["letter"] + "|" * idx + "^" * k + "x").encode()
-            ok, d, rec = schemaio.wrap_impl(cls, raw)
-            tm.case({"module": module, "letter": letter, "field": f["name"], "components": k + 1})
-            if ok:
-                tm.fail({"module": module, "letter": letter, "field": f["name"], "record": hexb(raw)},
-                        "a component with more values than declared is accepted", "too-many/components")
+            for surplus in ("x", "x^", "x^^", "x^y^"):
+                raw = (spec["letter"] + "|" * idx + "^" * k + surplus).encode()
+                ok, d, rec = schemaio.wrap_impl(cls, raw)
+                tm.case({"module": module, "letter": letter, "field": f["name"], "components": k + 1, "surplus": surplus})
+                if ok:
+                    tm.fail({"module": module, "letter": letter, "field": f["name"], "record": hexb(raw)},
+                            "a component with more values than declared is accepted", "too-many/components")
+                    break
     streams.append(tm)
     return streams
 
